@@ -173,6 +173,13 @@ func doCall(kind, gen string, stateful bool, st *genState, c gengo.Context, obj 
 			c.Render(snippet.Snippets(func(yield func(snippet.Snippet) bool) {
 				_ = yield(snippet.Block("\nvar _ ")) && yield(snippet.ID(ModPath+"/"+lib+"/util.T")) && yield(snippet.Block("\n"))
 			}))
+			if strings.HasSuffix(pkgPath, "/p") && obj.Name() == "T1" {
+				// p's file refers to BOTH packages called util (one of them gets a longer local name there); q's file refers to
+				// lib2/util alone and calls it util - whatever p's file had to call it
+				c.Render(snippet.Snippets(func(yield func(snippet.Snippet) bool) {
+					_ = yield(snippet.Block("\nvar _ ")) && yield(snippet.ID(ModPath+"/lib2/util.T")) && yield(snippet.Block("\n"))
+				}))
+			}
 		}
 	}
 	st.seen++
@@ -270,6 +277,9 @@ func doCall(kind, gen string, stateful bool, st *genState, c gengo.Context, obj 
 	case "render_defer_nested2":
 		render()
 		deferHelper("defer_nested2")
+	case "render_skip": // finds out that the type is to be skipped only after having rendered for it
+		render()
+		return gengo.ErrSkip
 	case "blank": // white space only
 		c.Render(snippet.Block("\n  \n\t\n"))
 	case "nothing_defer": // renders nothing itself; its deferred callback does
